@@ -535,7 +535,9 @@ def run_check(mod, tier, seed, replay=None):
     if herr:
         # the implementation raised where the observation code of the harness expects none (the exception
         # surfaced outside try_impl): the case itself is the failing input
-        impl_herr = [(c, r) for c, r in herr if os.path.join(REPO, "src") in r.get("tb", "")]
+        # (raised in /repo/src, or by the standard pickling / copying machinery while it handles one of its objects)
+        impl_herr = [(c, r) for c, r in herr if os.path.join(REPO, "src") in r.get("tb", "")
+                     or re.search(r'File "[^"]*/(copyreg|pickle|copy)\.py"', r.get("tb", ""))]
         if impl_herr and not replay:
             c, r = min(impl_herr, key=lambda cr: len(json.dumps(cr[0], default=str)))
             h = hashlib.sha1(json.dumps(c, sort_keys=True, default=str).encode()).hexdigest()[:10]
